@@ -25,7 +25,7 @@ from pypika_tortoise.dialects import MSSQLQuery, MySQLQuery, OracleQuery, Postgr
 
 LEVEL = "proof"
 THEOREMS = ["C10_embedded_is_standalone", "C10_position_flags_do_not_reach_the_clauses", "C10_setop_embedded_is_standalone", "C10_nonvacuous",
-            "C10_returning_nonvacuous"]
+            "C10_returning_nonvacuous", "C10_cte_body_is_standalone"]
 HEADER = "From PT Require Import Base.Str Base.Codes.\nOpen Scope N_scope.\n"
 
 
